@@ -120,6 +120,11 @@ BApply(S, c, cmd) ==
                  \* woken, but somebody else took the element: the emulator goes back to waiting WITHOUT registering again
                  ELSE IF wasWoken /\ On("D_WOKEN_WAITER_NOT_REREGISTERED")
                       THEN BRes([S1 EXCEPT !.conn[c].blk.unreg = TRUE], [t |-> "ctl"], {"D_WOKEN_WAITER_NOT_REREGISTERED"}, <<>>)
+                 \* (since the repair of the above) it registers again - at the tail of the wait queue: it has lost its place
+                 \* as the longest waiter
+                 ELSE IF wasWoken /\ On("D_REREGISTERED_WAITER_QUEUES_AT_THE_TAIL")
+                      THEN BRes([S1 EXCEPT !.conn[c].blk.since = S.nid + 1, !.conn[c].blk.tok = FALSE, !.nid = S.nid + 1], [t |-> "ctl"],
+                                {"D_REREGISTERED_WAITER_QUEUES_AT_THE_TAIL"}, <<>>)
                  ELSE BRes(S1, [t |-> "ctl"], {}, <<>>)
         ELSE IF ctl /\ cmd[1] = B("@close") THEN
              IF ss.blk.on /\ On("D_CLOSED_BLOCKED_CLIENT_STILL_CONSUMES")
